@@ -451,3 +451,4 @@ func ruleI9(p *Prog, r *Report) {
 	r.Decide(true, R, "self-nesting-walkers", "-", "literals of the receiver's own type built in methods (walkers that nest): "+itoa(n)+"; none compares a depth counter with a constant to fail", "")
 	r.Floor(R, "self-nesting literals", 1, n)
 }
+
